@@ -941,7 +941,9 @@ func runC10(env *lib.Env, rep *lib.Report) {
 			if rw > 0 {
 				g.p(",")
 			}
-			vals := []any{int64(1000 + rw), fmt.Sprintf("customer_%02d", rw), rw%2 == 0}
+			// (2-, 3- and 4-byte characters in the literals: every phase of every character meets a refill boundary
+			// at some shift)
+			vals := []any{int64(1000 + rw), fmt.Sprintf("é日🙂é日🙂_%02d", rw), rw%2 == 0}
 			g.p("(")
 			for i, v := range vals {
 				if i > 0 {
